@@ -25,7 +25,8 @@ PROPS["C16"] = {
                     "strconv.ParseFloat: native on concrete tokens, exact on free digit strings",
                     "the series name as Graphite presents it: name when untagged, name;tag1;tag2 with sorted tags otherwise (DESIGN.md appendix D)",
                     "regexp.MatchString = bounded NFA unrolling of the real syntax.Prog, ASCII input; fmt.Fprintln to os.Stderr is discarded",
-                    "in-memory file system for the schema file (natively a real temporary file)"],
+                    "in-memory file system for the schema file (natively a real temporary file)",
+                    "Kafka: sarama.NewClient / NewSyncProducerFromClient are engine models (2 partitions; SendMessages records the bytes of every message value as they are during the call, optionally failing the first call); the real KafkaMdm.run, parseMetric, SetId, MarshalMsg and the partitioner run on them; engine-only (no native replay)"],
     "groups": [
         {"pkg": "destination", "hdir": "destination", "specs": [
             spec("C16/pickle/line", "VerifC16Pickle", {"maxname": "2"}),
